@@ -572,27 +572,43 @@ impl Runner {
                 };
                 let n: usize = a["n"].parse().unwrap();
                 let k: usize = a.get("pre").and_then(|v| v.parse().ok()).unwrap_or(0);
-                self.with_series(|bs, p| {
-                    // `pre=k`: k items are already in the caller's vectors
-                    let mut ts: Vec<u64> = (0..k as u64).map(|i| 7_000_000 + i).collect();
-                    let mut r = Lin { p };
-                    let mut d = Vec::new();
-                    for _ in 0..k {
-                        d.push(r.decode_payload(&vec![0u8; p]));
-                    }
-                    match bs.read_n(n, (s, e), &mut r, &mut ts, &mut d, false) {
-                        Ok(()) => {
-                            if ts.len() < k || (0..k).any(|i| ts[i] != 7_000_000 + i as u64) {
-                                return "err caller-items-changed".to_string();
+                let rs = a.get("rs").map_or("u64", |s| s.as_str()).to_string();
+                macro_rules! read_n_with {
+                    ($mk:expr) => {
+                        self.with_series(|bs, p| {
+                            // `pre=k`: k items are already in the caller's vectors
+                            let mut ts: Vec<u64> = (0..k as u64).map(|i| 7_000_000 + i).collect();
+                            let mut r = $mk(p);
+                            let mut d = Vec::new();
+                            for _ in 0..k {
+                                d.push(r.decode_payload(&vec![0u8; p]));
                             }
-                            let enc: Vec<Vec<u8>> =
-                                d[k..].iter().map(|x| r.encode_item(x)).collect();
-                            fmt_entries(&ts[k..], &enc)
-                        }
-                        Err(er) => format!("err {}", class_of(&format!("{er:?}"))),
-                    }
-                })
+                            match bs.read_n(n, (s, e), &mut r, &mut ts, &mut d, false) {
+                                Ok(()) => {
+                                    if ts.len() < k || (0..k).any(|i| ts[i] != 7_000_000 + i as u64) {
+                                        return "err caller-items-changed".to_string();
+                                    }
+                                    let enc: Vec<Vec<u8>> =
+                                        d[k..].iter().map(|x| r.encode_item(x)).collect();
+                                    fmt_entries(&ts[k..], &enc)
+                                }
+                                Err(er) => format!("err {}", class_of(&format!("{er:?}"))),
+                            }
+                        })
+                    };
+                }
+                // `rs=`: the resampler's state is the library's number / array / Vec / spilled SmallVec impl
+                match rs.as_str() {
+                    "arr" => read_n_with!(|p| LinArr { p }),
+                    "vec" => read_n_with!(|p| LinVec { p }),
+                    "sv" => read_n_with!(|p| LinSv { p }),
+                    _ => read_n_with!(|p| Lin { p }),
+                }
             }
+            "flush" => self.with_series(|bs, _| match bs.flush_to_disk() {
+                Ok(()) => "ok".to_string(),
+                Err(er) => format!("err {}", class_of(&format!("{er:?}"))),
+            }),
             "n_lines" => {
                 let (Some(s), Some(e)) = (bound(&a["s"]), bound(&a["e"])) else {
                     return "bad-op".into();
